@@ -39,6 +39,7 @@ var suites = map[string]suiteFn{
 	"pure-shards":      pure.Shards,
 	"pure-launch":      pure.Launch,
 	"pure-connector":   pure.ConnectorRoundTrip,
+	"pure-connshards":  pure.ConnectorShards,
 	"pure-ctl":         pure.Controller,
 	"pure-graph":       pure.GraphSuite,
 }
